@@ -98,7 +98,7 @@ def register(R):
   R.cls('DataIterator', dict(config='ShardedIterable', _index='int', _it='iter[obj]'))
   R.add(Contract(
       f'{IO}::DataIterator.__next__', P,
-      types=dict(self='DataIterator'), ret='obj',
+      types=dict(self='DataIterator'), ret='obj', modifies=['self._index', 'self._it'],
       requires=['self._it.pos == self._index', 'self._index >= 0',
                 'self.config._shard_state.num_shards >= 1',
                 '0 <= self.config._shard_state.shard_index < self.config._shard_state.num_shards',
